@@ -387,7 +387,22 @@ fn gen_req_fresh(rng: &mut Rng, p: &Profile) -> ReqSpec {
     }
     let mut variants = vec![gen_variant(rng, p)];
     if rng.chance(p.p_variants, 100) {
-        let v = gen_variant(rng, p);
+        let v = if rng.chance(45, 100) {
+            // the same resources in another amount: both variants are feasible on the same
+            // workers, so the scheduler and a worker (backlog start) can choose differently
+            let mut v = variants[0].clone();
+            if let Some(e) = v.entries.first_mut() {
+                if e.policy != Policy::All {
+                    let u = 10_000u64;
+                    let other: Vec<u64> = [u / 2, u, 2 * u, 3 * u].into_iter().filter(|a| *a != e.amount).collect();
+                    e.amount = *rng.pick(&other);
+                    e.policy = Policy::Compact;
+                }
+            }
+            v
+        } else {
+            gen_variant(rng, p)
+        };
         if v != variants[0] {
             variants.push(v);
         }
@@ -677,6 +692,36 @@ impl Generator {
             .filter(|c| c.state == ClientState::Waiting)
             .count();
         let can_request = n_waiting_clients < 3;
+        // state-aware workload (C05): when the server's books count more free cpus on a worker than
+        // its placed tasks leave, a task that asks for exactly the counted amount turns the
+        // disagreement into an observable placement (the oracle stays the plain sum rule)
+        if p.name == "C05" && can_request && self.rng.chance(30, 100) {
+            let core = sim.core_snapshot();
+            let probe = crate::oracle::accounting_errors(&core).into_iter().find_map(|e| {
+                // "accounting: worker W resource R: server counts X free, placed tasks leave Y"
+                let rest = e.strip_prefix("accounting: worker ")?;
+                let mut it = rest.split(' ');
+                let _w: u32 = it.next()?.parse().ok()?;
+                let r: usize = rest.split("resource ").nth(1)?.split(':').next()?.parse().ok()?;
+                let x: u64 = rest.split("server counts ").nth(1)?.split(' ').next()?.parse().ok()?;
+                let y: u64 = rest.split("placed tasks leave ").nth(1)?.trim().parse().ok()?;
+                (x > y && x > 0).then_some((r, x))
+            });
+            if let Some((r, amount)) = probe {
+                if let Some(name) = core.resource_names.get(r) {
+                    let req = ReqSpec { variants: vec![VariantSpec { n_nodes: 0, min_time_s: 0, entries: vec![EntrySpec { resource: name.clone(), policy: Policy::Compact, amount }] }] };
+                    return Some(Action::Req {
+                        client: sim.idle_client(),
+                        req: ClientReq::Submit {
+                            job: None,
+                            max_fails: None,
+                            spec: SubmitSpec::Array { ids: None, entries: Some(2), req, attrs: TaskAttrs { prio: 7, time_limit_s: None, crash: CrashSpec::Max(5) } },
+                            stream: false,
+                        },
+                    });
+                }
+            }
+        }
         // state-aware fault placement: retractions in flight are the rarest window, so cancels and
         // kills are aimed at the jobs/workers involved in one more often
         let (hot_jobs, hot_workers): (Vec<Jid>, Vec<Wid>) = {
